@@ -362,3 +362,20 @@ func buildForkedge() (*Build, error) {
 	}
 	return b, nil
 }
+
+// multiseat: S1 with altair from genesis, 16 validators and a sync committee of 32: every validator is
+// sampled into the committee twice (positions p and p+16), i.e. it holds seats in two different
+// subcommittees (of 8) and is a member of exactly two of the four sync subnets.
+func buildMultiseat() (*Build, error) {
+	spec := chain.NewSpec(chain.PresetS1, chain.Forks(0, chain.FarFuture, chain.FarFuture, chain.FarFuture))
+	spec.CONFIG_NAME = "verif-gossip-multiseat"
+	spec.SYNC_COMMITTEE_SIZE = 32
+	b, c, err := newBuild(spec, chain.GenesisOpts{Validators: 16})
+	if err != nil {
+		return nil, err
+	}
+	if err := b.grow(c, "main", honestSteps(1, 5, map[common.Slot]bool{3: true}, nil)); err != nil {
+		return nil, err
+	}
+	return b, nil
+}
